@@ -380,6 +380,17 @@ func (repo *GoGitRepo) FetchRefs(remote string, prefixes ...string) (string, err
 		refSpecs[i] = config.RefSpec(fmt.Sprintf("refs/%s/*:refs/remotes/%s/%s/*", prefix, remote, prefix))
 	}
 
+	// go-git can't update a reference that only lives in the packed-refs file (after a git gc): its
+	// compare-and-swap only looks at the loose file, fails with "reference has changed concurrently"
+	// and leaves an empty, broken, loose reference behind. Make sure that the references this fetch may
+	// update are stored as loose references.
+	for _, prefix := range prefixes {
+		err := repo.unpackRefs(fmt.Sprintf("refs/remotes/%s/%s/", remote, prefix))
+		if err != nil {
+			return "", err
+		}
+	}
+
 	buf := bytes.NewBuffer(nil)
 
 	err := repo.r.Fetch(&gogit.FetchOptions{
@@ -395,6 +406,33 @@ func (repo *GoGitRepo) FetchRefs(remote string, prefixes ...string) (string, err
 	}
 
 	return buf.String(), nil
+}
+
+// unpackRefs writes the references matching the prefix that only exist in the packed-refs file as
+// loose references.
+func (repo *GoGitRepo) unpackRefs(refPrefix string) error {
+	refs, err := repo.ListRefs(refPrefix)
+	if err != nil {
+		return err
+	}
+	for _, name := range refs {
+		_, err := os.Stat(filepath.Join(repo.path, filepath.FromSlash(name)))
+		if err == nil {
+			continue
+		}
+		if !os.IsNotExist(err) {
+			return err
+		}
+		ref, err := repo.r.Storer.Reference(plumbing.ReferenceName(name))
+		if err != nil {
+			return err
+		}
+		err = repo.r.Storer.SetReference(ref)
+		if err != nil {
+			return err
+		}
+	}
+	return nil
 }
 
 // PushRefs push git refs matching a directory prefix to a remote
